@@ -241,8 +241,16 @@ def check(repo: Repo, rep: Report) -> None:
     # the marbles test context's cold() / hot() are the library's own from_marbles / hot with the context's timespan (and, for hot,
     # the subscription time as due time, on the context's scheduler): one marble semantics, not a second one rebuilt from exp()
     TMB = "reactivex/testing/marbles.py"
-    for fname, callee, want in (("test_cold", "from_marbles", {"timespan": "timespan", "lookup": "lookup", "error": "error"}),
-                                ("test_hot", "hot", {"timespan": "timespan", "duetime": "subscribed", "lookup": "lookup", "error": "error", "scheduler": "scheduler"})):
+    mt = repo.fn(TMB, "marbles_testing")
+    from ..rules import locals_by_init as _lbi
+    ts_name = mt.params[0] if mt.params else "?timespan"
+    sch_ = _lbi(mt, lambda v: isinstance(v, ast.Call) and call_name(v) == "TestScheduler")
+    sch_name = sch_[0] if len(sch_) == 1 else "?test-scheduler"
+    # the subscription time is the constant local the context's start() hands to the scheduler as `subscribed=`
+    sub_ = [u(k.value) for g_ in mt.walk() if g_.is_func for x in sites(g_) if isinstance(x.node, ast.Call) for k in x.node.keywords if k.arg == "subscribed"]
+    sub_name = sub_[0] if sub_ else "?subscribed"
+    for fname, callee, want in (("test_cold", "from_marbles", {"timespan": ts_name, "lookup": 1, "error": 2}),
+                                ("test_hot", "hot", {"timespan": ts_name, "duetime": sub_name, "lookup": 1, "error": 2, "scheduler": sch_name})):
         f = repo.opt_fn(TMB, f"marbles_testing.{fname}")
         if f is None:
             rep.ob("M5-forwarding", TMB, f"marbles_testing.{fname}", False, f"the marbles test context has no {fname} any more")
@@ -253,7 +261,7 @@ def check(repo: Repo, rep: Report) -> None:
             c = calls[0].node
             kw = {k.arg: u(k.value) for k in c.keywords}
             params = f.params
-            ok = bool(c.args) and u(c.args[0]) == params[0] and all(kw.get(k) == v for k, v in want.items())
+            ok = bool(c.args) and u(c.args[0]) == params[0] and all(kw.get(k) == (params[v] if isinstance(v, int) else v) for k, v in want.items())
         rets = [x for x in sites(f) if isinstance(x.node, ast.Return)]
         rep.ob("M5-forwarding", f, f"marbles_testing.{fname} -> reactivex.{callee}(string, {', '.join(k + '=' for k in want)})", ok and bool(rets),
                f"the marbles test context's {fname[5:]}() is not the library's {callee}() over the same diagram, timespan, lookup and error (for hot: due at the "
